@@ -112,6 +112,16 @@ def expr_operand(body, op, depth=0):
     if op["k"] == "const":
         if "fn" in op:
             return E(("fnconst", op["fn"]["path"], op["fn"]))
+        if op.get("uneval") and depth < 6:
+            # a named constant of the crate (`const RANK_STEP: Rank = Rank(1)`): its initialiser, when that is a single
+            # assignment of a literal / aggregate of literals
+            cb = body.fb.bodies.get(op["uneval"]) if getattr(body, "fb", None) is not None else None
+            if cb is not None and cb.kind == "other" and len(cb.blocks) == 1 and cb.blocks[0]["term"].get("k") == "return":
+                st = [s_ for s_ in cb.blocks[0]["stmts"] if s_["k"] == "assign" and s_["pl"]["l"] == 0 and not s_["pl"]["p"]]
+                if len(st) == 1 and len([s_ for s_ in cb.blocks[0]["stmts"] if s_["k"] == "assign"]) == 1 and \
+                        (st[0]["rv"]["k"] == "use" and st[0]["rv"]["op"]["k"] == "const" or
+                         st[0]["rv"]["k"] == "agg" and all(o["k"] == "const" and not o.get("uneval") for o in st[0]["rv"]["ops"])):
+                    return expr_rvalue(cb, st[0]["rv"], depth + 1, (0, 0))
         return E(("const", op.get("bits", op["val"]), op["ty"]))
     if op["k"] in ("copy", "move"):
         return expr_place(body, op["pl"], depth)
